@@ -154,7 +154,9 @@ class Repo:
         target = self.module(base)
         if target is None:
             return ('external', base, nm)
-        r = self.resolve(target, nm, depth + 1)
+        r = None
+        if nm in target.defs or (target is not mod and nm in target.imports and target.imports[nm] != imp):
+            r = self.resolve(target, nm, depth + 1)
         if r is not None:
             return r
         sub = self.module(base + '.' + nm)
